@@ -1,0 +1,18 @@
+//go:build verif
+
+package quickfix
+
+import "golang.org/x/net/proxy"
+
+// VerifStartWithDialer is Initiator.Start with the dialer handed in by the harness instead of the one
+// loadDialerConfig builds from the settings (no TLS): one handleConnection goroutine per session.
+func (i *Initiator) VerifStartWithDialer(d proxy.ContextDialer) {
+	i.stopChan = make(chan interface{})
+	for sessionID := range i.sessionSettings {
+		i.wg.Add(1)
+		go func(sessID SessionID) {
+			i.handleConnection(i.sessions[sessID], nil, d)
+			i.wg.Done()
+		}(sessionID)
+	}
+}
